@@ -80,3 +80,18 @@ Fixpoint qeval (scheme_of : N -> N) (ftypes : list ftype) (seen_cmp : N -> N -> 
   | QOr a b => qeval scheme_of ftypes seen_cmp a c || qeval scheme_of ftypes seen_cmp b c
   | QConst b => b
   end.
+
+(* The declared fragment as a checked predicate: outside it [qeval] returns a plausible boolean that need not be the
+   real evaluator's answer (`language = ""` / `name = ""` are existence checks there; an unknown field key is an
+   error).  Every case of the correspondence run asserts [in_fragment] of every group query (ModifiersCorr.v), so a
+   generator change cannot silently leave the fragment.  No theorem depends on this file. *)
+Fixpoint in_fragment (ftypes : list ftype) (q : query) : bool :=
+  match q with
+  | QNameIs t => negb (text_eqb (fold_text t) [])
+  | QLangIs l => negb (N.eqb l 0)
+  | QFieldTextIs f t => Nat.ltb (N.to_nat f) (length ftypes) && ftype_eqb (nth (N.to_nat f) ftypes FNumber) FText
+                        && negb (text_eqb (fold_text t) [])
+  | QFieldSet f | QFieldUnset f => Nat.ltb (N.to_nat f) (length ftypes)
+  | QAnd a b | QOr a b => in_fragment ftypes a && in_fragment ftypes b
+  | _ => true
+  end.
